@@ -348,43 +348,7 @@ func runC03(p *Prog, r *Report) {
 	c03Scanner(p, r, fns)
 	c03Pending(p, r)
 	learn := os.Getenv("SCALINT_LEARN") != ""
-	nloops := 0
-	for _, fn := range fns {
-		sk := loopSkips(fn, isPackageAppend)
-		key := fnKey(fn)
-		want := c03Sanctioned[key]
-		if learn {
-			for _, s := range sk {
-				fmt.Fprintf(os.Stderr, "LEARN\t%q: %q,\n", key, s)
-			}
-			continue
-		}
-		if len(sk) == 0 && len(want) == 0 {
-			continue
-		}
-		nloops++
-		got := map[string]int{}
-		for _, s := range sk {
-			got[s]++
-		}
-		wantN := map[string]int{}
-		for _, s := range want {
-			wantN[s]++
-		}
-		for s, n := range got {
-			if n > wantN[s] {
-				r.Fail("D3-omissions", key+":new:"+short(s, 120), p.Pos(fn.Pos()), "a decision that makes the current record/element impossible to report is not among the audited omissions of this format: "+s+" (an added filter, de-duplication or early exit drops or merges packages)")
-			} else {
-				r.OK("D3-omissions", key+":"+short(s, 120), p.Pos(fn.Pos()), "audited omission")
-			}
-		}
-		for s, n := range wantN {
-			if got[s] < n {
-				r.Fail("D3-omissions", key+":missing:"+short(s, 120), p.Pos(fn.Pos()), "the audited omission/exit '"+s+"' is gone or was rewritten: records the format marks as not installed (or malformed/terminating records) are no longer handled the audited way")
-			}
-		}
-	}
-	r.Instances("D3-omissions", "package-producing functions with audited omissions", nloops, 12)
+	c03Omissions(p, r, "D3-omissions", fns)
 	// helper predicates that decide those branches: frozen truth tables
 	r.Rule("D3-predicates", "boolean helpers deciding a branch of a package loop compute the audited function of their atomic tests")
 	npred := 0
@@ -594,4 +558,46 @@ func c03Pending(p *Prog, r *Report) {
 			return isReturn(in) || !body[in.Block()]
 		}, usesHeader, nil, "after EOF the returned header is still examined before the loop ends", "after ReadMIMEHeader reports io.EOF the loop can end without looking at the header it returned: the last stanza of a status file without trailing blank line is dropped")
 	}
+}
+
+// c03Omissions: the frozen omission table over the package-producing loops of fns.
+func c03Omissions(p *Prog, r *Report, rule string, fns []*ssa.Function) {
+	learn := os.Getenv("SCALINT_LEARN") != ""
+	nloops := 0
+	for _, fn := range fns {
+		sk := loopSkips(fn, isPackageAppend)
+		key := fnKey(fn)
+		want := c03Sanctioned[key]
+		if learn {
+			for _, s := range sk {
+				fmt.Fprintf(os.Stderr, "LEARN\t%q: %q,\n", key, s)
+			}
+			continue
+		}
+		if len(sk) == 0 && len(want) == 0 {
+			continue
+		}
+		nloops++
+		got := map[string]int{}
+		for _, s := range sk {
+			got[s]++
+		}
+		wantN := map[string]int{}
+		for _, s := range want {
+			wantN[s]++
+		}
+		for s, n := range got {
+			if n > wantN[s] {
+				r.Fail(rule, key+":new:"+short(s, 120), p.Pos(fn.Pos()), "a decision that makes the current record/element impossible to report is not among the audited omissions of this format: "+s+" (an added filter, de-duplication or early exit drops or merges packages)")
+			} else {
+				r.OK(rule, key+":"+short(s, 120), p.Pos(fn.Pos()), "audited omission")
+			}
+		}
+		for s, n := range wantN {
+			if got[s] < n {
+				r.Fail(rule, key+":missing:"+short(s, 120), p.Pos(fn.Pos()), "the audited omission/exit '"+s+"' is gone or was rewritten: records the format marks as not installed (or malformed/terminating records) are no longer handled the audited way")
+			}
+		}
+	}
+	r.Instances(rule, "package-producing functions with audited omissions", nloops, 12)
 }
